@@ -450,7 +450,40 @@ func runResubCase(c *Case) string {
 	if c.get("decoy", "-") == "1" {
 		res += fmt.Sprintf(" decoy=%d", atomic.LoadInt32(&decoySubs))
 	}
+	if c.get("again", "-") == "1" {
+		// the SAME pipeline subscribed a second time once the first run is over (what Retry / Repeat around it, or a second
+		// user, do): the scripted source starts over, so the second run must be the first one again - whatever the first run
+		// ended with (a pipeline is a reusable recipe; no state survives a subscription)
+		first := fmt.Sprintf("%s|%s|%d|%d", joinOrDash(trace), joinOrDash(src.log), src.n, src.maxLive)
+		src.n, src.log, src.live, src.maxLive, src.torn = 0, nil, 0, 0, 0
+		trace, calls, evals = nil, 0, 0
+		src.mu.Unlock()
+		tmu.Unlock()
+		done := make(chan struct{})
+		go func() { defer close(done); target.SubscribeWithContext(runCtx, endpoint2(add)) }()
+		verdict := "same"
+		select {
+		case <-done:
+		case <-time.After(2 * time.Second):
+			verdict = "hung"
+		}
+		src.mu.Lock()
+		tmu.Lock()
+		if second := fmt.Sprintf("%s|%s|%d|%d", joinOrDash(trace), joinOrDash(src.log), src.n, src.maxLive); verdict == "same" && second != first {
+			verdict = "differs:" + strings.ReplaceAll(second, " ", "_")
+		}
+		res += " again=" + verdict
+	}
 	return res
+}
+
+// endpoint2: a fresh recording observer for the second subscription of kind=resub again=1
+func endpoint2(add func(string)) ro.Observer[int] {
+	return ro.NewObserverWithContext(
+		func(ctx context.Context, v int) { add("N" + renderVal(v) + "/" + renderCtx(ctx)) },
+		func(ctx context.Context, err error) { add("E" + renderResubErr(err) + "/" + renderCtx(ctx)) },
+		func(ctx context.Context) { add("C/" + renderCtx(ctx)) },
+	)
 }
 
 // ---------- generation ----------
@@ -577,6 +610,11 @@ func genResub(tier string, seed int64, only string) []*Case {
 			id++
 			cases = append(cases, newCase(id, "kind", "resub", "op", op, "p", p, "var", variant, "cond", cond, "ct", ct,
 				"mode", mode, "cut", cut, "cancel", cancel, "sub", "7", "srcs", shapesString(l), "tdslow", "1"))
+		}
+		if mode == "sync" && cancel == "-" && cut == "-" && ((thorough && id%2 == 1) || (!thorough && id%4 == 1)) {
+			id++
+			cases = append(cases, newCase(id, "kind", "resub", "op", op, "p", p, "var", variant, "cond", cond, "ct", ct,
+				"mode", mode, "cut", cut, "cancel", cancel, "sub", "7", "srcs", shapesString(l), "again", "1"))
 		}
 		if op != "Concat" && mode == "sync" && cancel == "-" && ((thorough && id%2 == 0) || (!thorough && id%5 == 0)) {
 			id++
